@@ -90,6 +90,12 @@ append_derivation(CPPType *base, CPPVisibility vis, bool is_virtual) {
       def = base->as_typedef_type();
     }
 
+    if (base == this) {
+      // A class cannot be its own base class.  Ignore this, since otherwise
+      // we would recurse forever when we walk the derivation later.
+      return;
+    }
+
     if (vis == V_unknown && base->as_extension_type() != nullptr) {
       // Default visibility.
       if (base->as_extension_type()->_type == T_class) {
